@@ -18,7 +18,7 @@ package module
 //@   requires len(arguments) == 2 && typeis(arguments[0], K) && typeis(arguments[1], V)
 //@   ensures[C20] result != nil && akey(result) == arguments[0] && aval(result) == arguments[1]
 //@   loop 1:
-//@     invariant -1 <= rangeindex && rangeindex <= 1 && notation != nil
+//@     invariant -1 <= rangeindex && rangeindex <= 1 && notation != nil && (hasKey <==> rangeindex >= 0)
 //@     invariant rangeindex >= 0 ==> key == arguments[0]
 //@     invariant rangeindex >= 1 ==> value == arguments[1]
 //@     decreases 2 - rangeindex
